@@ -537,6 +537,21 @@ impl<'a> Runner<'a> {
                                 format!("{}: Pending although upstream is exhausted and nothing is in flight", ctx),
                             );
                         }
+                        if n >= 1 && !(self.queue.len() >= n || up_ended || up_pending_call) && !task_woken {
+                            // a call that did a budget's worth of work and then stopped with work
+                            // still available must have woken its task (C13)
+                            let (done, pulled) = with(|w| (w.completions_call, w.pulled_call));
+                            if done + pulled >= 61 {
+                                self.violate(
+                                    "C13",
+                                    "stopped-early-without-wake",
+                                    format!(
+                                        "{}: after {} completions and {} pulls in one call it returned Pending with free slots and a ready upstream, without waking its task",
+                                        ctx, done, pulled
+                                    ),
+                                );
+                            }
+                        }
                         if n >= 1 && !(self.queue.len() >= n || up_ended || up_pending_call) {
                             self.violate(
                                 "C09",
